@@ -400,6 +400,168 @@ theorem site_some {w : Wiring} {id : String} {s : Site} (h : w.site id = some s)
   have := List.find?_some h
   simpa using this
 
+/-! ## Free-standing roots (round 3) -/
+
+/-- PARAMETRICITY for a constructor the user calls himself with the registered classes handed in -/
+theorem freeRoot_interp (cfg : Cfg) (w : Wiring) (c : CName) (aself : AVal) (v : Val) (kws : List (Ident × Role))
+    (hv : interp cfg aself = some v) :
+    freeRoot w cfg c v kws = (afreeRoot w c aself kws).map (interpObj cfg) := by
+  unfold freeRoot afreeRoot
+  cases w.classDef c with
+  | none => rfl
+  | some cd =>
+    simp only [Option.map_some]
+    rw [interpObj_mk, hv]
+    simp only [Option.getD_some]
+    have : (kws.map fun kr => (kr.1, registered cfg kr.2))
+        = (kws.map fun kr => (kr.1, AVal.param kr.2)).map (F cfg) := by
+      rw [List.map_map]; rfl
+    rw [this, runInit_map]
+
+theorem freeRootsOk_mem {w : Wiring} {objs : List AObj} (h : freeRootsOk w objs = true)
+    {c : CName} {aself : AVal} {kws : List (Ident × Role)} (hm : (c, aself, kws) ∈ freeRoots) :
+    ∃ ao, afreeRoot w c aself kws = some ao ∧ ao ∈ objs := by
+  unfold freeRootsOk at h
+  have h1 := List.all_eq_true.mp h (c, aself, kws) hm
+  simp only [Bool.and_eq_true] at h1
+  cases hr : afreeRoot w c aself kws with
+  | none => simp [hr] at h1
+  | some ao =>
+    simp only [hr] at h1
+    exact ⟨ao, rfl, List.contains_iff_mem.mp h1.1⟩
+
+/-- FLOW from any member of a certified set: in every object reachable by any chain from the
+interpretation of `ao ∈ objs`, every site catalogued as creating (or guarding) role `r` uses exactly the
+class expected for `r`. -/
+theorem flow_from_member {w : Wiring} {objs : List AObj} (hc : check w objs = true) (cfg : Cfg)
+    (ao : AObj) (hao : ao ∈ objs) (chain : List Site) (o : Obj) (s : Site) (r : Role)
+    (hin : ∀ x ∈ chain, x ∈ w.sites) (hr : reachFrom w (some (interpObj cfg ao)) chain = some o)
+    (hs : s ∈ w.sites) (hown : s.owner = o.cd)
+    (hd : dispOf s.id = some (.handedOut r) ∨ dispOf s.id = some (.guard r)) :
+    classAt w o s = some (expected cfg r) := by
+  rw [reachFrom_interp hc cfg chain ao hao hin] at hr
+  cases h : areachFrom w (some ao) chain with
+  | none => rw [h] at hr; cases hr
+  | some ao' =>
+    rw [h] at hr
+    simp only [Option.map_some, Option.some.injEq] at hr
+    subst hr
+    have hao' := areachFrom_mem hc chain ao ao' hao hin h
+    have hown' : s.owner = ao'.cd := hown
+    obtain ⟨cd, hcd, _, hval, _⟩ := siteOk_own (check_site hc ao' hao' s hs) hown'
+    rw [classAt_interp cfg w ao' (check_self hc ao' hao') s]
+    unfold aclassAt
+    simp only [hown', if_true, hcd]
+    rw [hval r hd]
+    exact interp_paramOr_dflt cfg r
+
+/-! ## Entry points that accept an object (round 3) -/
+
+theorem isInstance_refl (v : Val) : isInstance v v = true := by
+  cases v <;> simp [isInstance]
+
+theorem entry_some {w : Wiring} {id : String} {e : Entry} (h : w.entry id = some e) : e ∈ w.entries ∧ e.id = id := by
+  unfold Wiring.entry at h
+  refine ⟨List.mem_of_find?_eq_some h, ?_⟩
+  have := List.find?_some h
+  simpa using this
+
+/-- a resolved entry point is not a delegation -/
+theorem resolveEntry_not_delegate (w : Wiring) : ∀ (n : Nat) (e e' : Entry),
+    resolveEntry w n e = some e' → ∀ t, e'.how ≠ .delegate t := by
+  intro n
+  induction n with
+  | zero => intro e e' h; simp [resolveEntry] at h
+  | succ n ih =>
+    intro e e' h t
+    unfold resolveEntry at h
+    cases hh : e.how with
+    | delegate t' =>
+      simp only [hh] at h
+      cases he : w.entry t' with
+      | none => simp [he] at h
+      | some e2 =>
+        simp only [he, Option.bind_some] at h
+        exact ih e2 e' h t
+    | adopt => simp only [hh, Option.some.injEq] at h; subst h; rw [hh]; intro hc; cases hc
+    | convertUnless g f => simp only [hh, Option.some.injEq] at h; subst h; rw [hh]; intro hc; cases hc
+    | rebuild f => simp only [hh, Option.some.injEq] at h; subst h; rw [hh]; intro hc; cases hc
+
+/-- what the certificate gives for an entry point of the wiring -/
+theorem entriesOk_entry {w : Wiring} (h : entriesOk w = true) {e : Entry} (he : e ∈ w.entries) :
+    ∃ r e', entryRole e.id = some r ∧ resolveEntry w 4 e = some e' ∧ entryRole e'.id = some r ∧
+      e' ∈ w.entries ∧ entryOk w e' r = true ∧ (r ∈ convertedRoles → e'.how ≠ .adopt) := by
+  unfold entriesOk at h
+  simp only [Bool.and_eq_true] at h
+  have h1 := List.all_eq_true.mp h.1 e he
+  cases hr : entryRole e.id with
+  | none => simp [hr] at h1
+  | some r =>
+    cases hres : resolveEntry w 4 e with
+    | none => simp [hr, hres] at h1
+    | some e' =>
+      simp only [hr, hres, Bool.and_eq_true, beq_iff_eq, Bool.or_eq_true, Bool.not_eq_true', bne_iff_ne] at h1
+      refine ⟨r, e', rfl, rfl, h1.1.1.1, List.contains_iff_mem.mp h1.1.1.2, h1.1.2, ?_⟩
+      intro hm
+      rcases h1.2 with h2 | h2
+      · have := List.contains_iff_mem.mpr hm
+        rw [h2] at this; cases this
+      · exact h2
+
+/-- CONVERSION: in an object where the guard and the factory of a (non-delegating) entry point use the
+class expected for role `r`, whatever is handed in, what is stored is an instance of that class: the very
+object when it already was one, else a new object of exactly the expected class. -/
+theorem store_converts {w : Wiring} {o : Obj} {e : Entry} {r : Role} {cfg : Cfg} (hok : entryOk w e r = true)
+    (hown : e.owner = o.cd)
+    (hflow : ∀ s ∈ w.sites, s.owner = o.cd →
+      (dispOf s.id = some (.handedOut r) ∨ dispOf s.id = some (.guard r)) → classAt w o s = some (expected cfg r))
+    (given : Val) :
+    (e.how = .adopt ∧ store w o e given = some .asIs) ∨
+    (e.how ≠ .adopt ∧ ∃ st, store w o e given = some st ∧
+      isInstance (st.cls given) (expected cfg r) = true ∧
+      (st = .asIs ∧ isInstance given (expected cfg r) = true ∨
+       st = .rebuilt (expected cfg r) ∧ (isInstance given (expected cfg r) = false ∨ ∃ f, e.how = .rebuild f))) := by
+  unfold entryOk at hok
+  cases hh : e.how with
+  | adopt => left; exact ⟨rfl, by simp [store, hh]⟩
+  | delegate t => simp [hh] at hok
+  | rebuild f =>
+    right
+    refine ⟨(by intro hc; cases hc), ?_⟩
+    simp only [hh] at hok
+    cases hs : w.site f with
+    | none => simp [hs] at hok
+    | some s =>
+      simp only [hs, Bool.and_eq_true, beq_iff_eq] at hok
+      have hmem := site_some hs
+      have hcls := hflow s hmem.1 (hok.1.trans hown) (Or.inl (by rw [hmem.2]; exact hok.2))
+      refine ⟨.rebuilt (expected cfg r), ?_, isInstance_refl _, Or.inr ⟨rfl, Or.inr ⟨f, rfl⟩⟩⟩
+      simp [store, hh, hs, hcls]
+  | convertUnless g f =>
+    right
+    refine ⟨(by intro hc; cases hc), ?_⟩
+    simp only [hh, Bool.and_eq_true] at hok
+    obtain ⟨hg, hf⟩ := hok
+    cases hsg : w.site g with
+    | none => simp [hsg] at hg
+    | some sg =>
+      cases hsf : w.site f with
+      | none => simp [hsf] at hf
+      | some sf =>
+        simp only [hsg, Bool.and_eq_true, beq_iff_eq] at hg
+        simp only [hsf, Bool.and_eq_true, beq_iff_eq] at hf
+        have hmg := site_some hsg
+        have hmf := site_some hsf
+        have hcg := hflow sg hmg.1 (hg.1.trans hown) (Or.inr (by rw [hmg.2]; exact hg.2))
+        have hcf := hflow sf hmf.1 (hf.1.trans hown) (Or.inl (by rw [hmf.2]; exact hf.2))
+        by_cases hi : isInstance given (expected cfg r) = true
+        · refine ⟨.asIs, ?_, hi, Or.inl ⟨rfl, hi⟩⟩
+          simp [store, hh, hsg, hsf, hcg, hcf, hi]
+        · refine ⟨.rebuilt (expected cfg r), ?_, isInstance_refl _, Or.inr ⟨rfl, Or.inl (by simpa using hi)⟩⟩
+          simp [store, hh, hsg, hsf, hcg, hcf, hi]
+
+/-! ## Chains of site ids -/
+
 theorem mapM_site_mem {w : Wiring} : ∀ {ids : List String} {chain : List Site},
     ids.mapM w.site = some chain → ∀ s ∈ chain, s ∈ w.sites := by
   intro ids
